@@ -77,6 +77,7 @@ def runSection (r : Report) (s : Section) : Report := Id.run do
     | .error (ln, model, impl) => r := r.mismatch s.idx ln model impl
   -- coverage counters
   r := r.addCover s!"{mode}-sections"
+  if mode = "rm" && kvStr s.cfg "sfd" "-" ≠ "-" then r := r.addCover "rm-sections-delayed-flight-entry"
   for o in h do
     r := r.addCover s!"{mode}-calls"
     if o.ran then r := r.addCover s!"{mode}-executed" else r := r.addCover s!"{mode}-shared"
